@@ -296,10 +296,12 @@ func (l *localFS) KeysPrefix(_ context.Context, token, prefix, delimiter string,
 		cleaned += "/"
 	}
 	prefix = cleaned
+	globKey := prefix + "\x00" + delimiter
 
-	// we cache the result for the duration of the fetch loop: during this period, localfs updates are not seen
-	search, ok := l.glob[prefix]
-	if !ok {
+	// we cache the result for the duration of the fetch loop: during this period, localfs updates are not seen.
+	// A new iteration (empty token) never reuses the result of a previous, possibly abandoned, one.
+	search, ok := l.glob[globKey]
+	if !ok || token == "" {
 		// NOTE: Glob is not workable, fall back to Walk
 		matches := make([]string, 0, 50)
 		err := afero.Walk(l.fs, path.Dir(prefix), func(pth string, info os.FileInfo, err error) error {
@@ -342,7 +344,7 @@ func (l *localFS) KeysPrefix(_ context.Context, token, prefix, delimiter string,
 			}
 			matches = deduped
 		}
-		l.glob[prefix], search = matches, matches
+		l.glob[globKey], search = matches, matches
 	}
 
 	var (
@@ -363,7 +365,7 @@ func (l *localFS) KeysPrefix(_ context.Context, token, prefix, delimiter string,
 			break
 		}
 		if !found {
-			delete(l.glob, prefix)
+			delete(l.glob, globKey)
 			return []string{}, "", nil
 		}
 	}
@@ -374,7 +376,7 @@ func (l *localFS) KeysPrefix(_ context.Context, token, prefix, delimiter string,
 	} else {
 		next = ""
 		end = len(search)
-		delete(l.glob, prefix)
+		delete(l.glob, globKey)
 	}
 
 	return search[start:end], next, nil
